@@ -1,7 +1,7 @@
 """C05 - ECB/CBC/CTR/CTS follow SP 800-38A over the configured padding and decrypt what they encrypt.
 Oracle: SP 800-38A written generically over the same block function E = cipher.enc, applied to
 the padding specification of C09."""
-from mc.engine import Sub
+from mc.engine import Sub, HSystem, hsub
 from mc.common import ramp, expander, xor
 from mc.checks import cipherfam as F
 from mc.refs import padspec as PS
@@ -153,6 +153,104 @@ def run_ecbcbc(ctx, pt):
                     ctx.eq(K + '/dec', ctx.attempt(lambda: mk().dec(exp)), ('ok', M))
 
 
+# ---- CBC messages crafted so that ciphertext blocks collide ------------------------------
+
+def pts_cbc_crafted(tier):
+    return [(cid, mode) for cid in ['stub64', 'stub128'] + list(REAL) for mode in ('CBC', 'CTS_CBC')]
+
+
+def run_cbc_crafted(ctx, pt):
+    """messages chosen (with the block cipher's own dec) so that a ciphertext block equals the IV, equals the
+    previous ciphertext block, or is all zero: value classes no pattern sweep reaches"""
+    from crysp import mode as Mo
+    from crysp.padding import nopadding, pkcs7
+    cid, mode = pt
+    n = blen(cid)
+    c = cipher(cid)
+    for ivk in ('ramp', 'zero'):
+        iv = iv_of(ivk, n)
+        rnd = [expander(n, 20 + j) for j in range(4)]
+        for where in (0, 1, 2):
+            for target in ('iv', 'prev', 'zero'):
+                # build blocks M_0..M_3; block `where` is forced so that C_where == target value
+                M = []
+                prev = iv
+                for j in range(4):
+                    if j == where:
+                        want = {'iv': iv, 'prev': prev, 'zero': bytes(n)}[target]
+                        m = xor(c.dec(want), prev)
+                    else:
+                        m = rnd[j]
+                    M.append(m)
+                    prev = c.enc(xor(m, prev))
+                for tail in ((0,) if mode == 'CBC' else (0, 1, n - 1)):
+                    msg_ = b''.join(M) + expander(tail, 30)
+                    if mode == 'CBC':
+                        for padc, padn in ((pkcs7, 'pkcs7'), (nopadding, 'none')):
+                            mk = lambda: Mo.CBC(c, iv, pad=padc)
+                            exp = sp800_cbc(c.enc, iv, PS.pad_spec(padn, 8 * n, msg_)[0], n)
+                            r = ctx.attempt(lambda: mk().enc(msg_))
+                            ctx.eq('C05/CBC/%s/enc' % padn, r, ('ok', exp))
+                            ctx.eq('C05/CBC/%s/dec/colliding-ciphertext-blocks' % padn, ctx.attempt(lambda: mk().dec(exp)), ('ok', msg_))
+                    else:
+                        mk = lambda: Mo.CTS_CBC(c, iv)
+                        r = ctx.attempt(lambda: mk().enc(msg_))
+                        if r[0] == 'ok':
+                            ctx.eq('C05/CTS_CBC/dec-of-enc/colliding-ciphertext-blocks', ctx.attempt(lambda: mk().dec(r[1])), ('ok', msg_))
+                        else:
+                            ctx.eq('C05/CTS_CBC/enc-length', r, 'ok')
+
+
+# ---- CTR with a counter object that is set up again between calls (engine H) ------------------
+
+class CtrSys(HSystem):
+    def __init__(self, cid):
+        self.cid = cid
+        self.n = blen(cid)
+        h = self.n // 2
+        self.cfgs = {'A': (iv_of('ramp', self.n - h), (5).to_bytes(h, 'big')), 'B': (iv_of('zero', self.n - h), ((1 << (8 * h)) - 2).to_bytes(h, 'big')),
+                     'C': (iv_of('ff', self.n - h), (1 << (8 * h - 1)).to_bytes(h, 'big'))}
+
+    def fresh(self):
+        from crysp import mode as Mo
+        c = cipher(self.cid)
+        nonce, cnt = self.cfgs['A']
+        ctr = Mo.DefaultCounter(self.n).setup(nonce, cnt)
+        return {'o': Mo.CTR(c, ctr), 'cfg': 'A', 'c': c, 'exp': None}
+
+    def canon(self, o):
+        from mc.engine import canon
+        return (o['cfg'], canon(o['o'].counter), canon(o['o'].pad))
+
+    def events(self, o):
+        return [('setup', k) for k in self.cfgs] + [('enc', 0), ('enc', 1), ('enc', 2 * self.n + 1), ('dec', self.n + 3)]
+
+    def apply(self, o, ev):
+        if ev[0] == 'setup':
+            o['cfg'] = ev[1]
+            o['o'].counter.setup(*self.cfgs[ev[1]])
+            o['exp'] = None
+            return None
+        L = ev[1]
+        M = msg(L, 1)
+        nonce, cnt = self.cfgs[o['cfg']]
+        h = len(cnt)
+        c0 = int.from_bytes(cnt, 'big')
+        ks = b''.join(o['c'].enc(nonce + ((c0 + j) % (1 << (8 * h))).to_bytes(h, 'big')) for j in range((L + self.n - 1) // self.n))
+        o['exp'] = xor(M, ks)
+        return o['o'].enc(M) if ev[0] == 'enc' else o['o'].dec(M)
+
+    def judge(self, ctx, hist, ev, res, o):
+        if ev[0] == 'setup':
+            ctx.eq('C05/CTR/counter-setup', res[0], 'ok')
+        else:
+            ctx.eq('C05/CTR/%s-after-counter-setup-history' % ev[0], res, ('ok', o['exp']))
+
+
+def ctr_systems(tier):
+    return {cid: CtrSys(cid) for cid in (['stub16', 'stub128', 'aes128', 'des'] + (['tf512', 'serpent'] if tier == 'thorough' else []))}
+
+
 # ---- CTR -----------------------------------------------------------------------------
 
 def pts_ctr(tier):
@@ -268,6 +366,10 @@ def subchecks():
             bound='mode in {ECB,CBC} x padding in {PKCS#7, X9.23, ISO 7816-4, zero (enc only), none (whole blocks)} x stub cipher of block size 8,16,24,64,128,256,512,1024 bits with every |M| in 0..4 blocks+1 and 3 data patterns (one whose tail equals its own pad byte), and every real cipher (9) with every |M| in 0..blocklen+1 and k blocks +{0,1,blen-1}, k<=3; IV in {zero, ramp}; enc == SP800-38A(pad_spec(M)), dec(enc(M)) == M with a fresh object, dec(spec ciphertext) == M'),
         Sub('ctr', pts_ctr, run_ctr, engine='P', chunk=1,
             bound='stub block sizes 16..1024 bits and 9 real ciphers; nonce half in {zero, ramp}; counter half in {0,1,2^h-2,2^h-1,0x0102..}; counter given as bytes and as a DefaultCounter set up by hand; |M| as above (<=3 blocks+1 for large blocks)'),
+        Sub('cbc-crafted', pts_cbc_crafted, run_cbc_crafted, engine='P',
+            bound='CBC (pkcs7, none) and CTS_CBC over 2 stub and 9 real ciphers: 4-block messages in which block 0, 1 or 2 is chosen with cipher.dec so that its ciphertext block equals the IV / the previous ciphertext block / zero; 2 IVs; CTS tails 0, 1, blen-1'),
+        hsub('ctr-counter-histories', ctr_systems, lambda tier: 3 if tier == 'quick' else 4,
+             bound='one CTR object with a DefaultCounter; events: counter.setup with 3 (nonce,count) pairs (one 2 steps before the wrap), enc of 0 / 1 / 2 blocks+1 bytes, dec; all histories to depth 3 (thorough 4); every enc/dec equals SP 800-38A under the configuration set last'),
         Sub('cts', pts_cts, run_cts, engine='P', chunk=1,
             bound='CTS_ECB / CTS_CBC over the stub ciphers (block >= 16 bits) and 9 real ciphers, every |M| >= one block as above: length, IV first, round trip with a fresh object, whole-block case equals the plain mode'),
         Sub('sp800-38a-vectors', pts_nist, run_nist, engine='P', bound='SP 800-38A F.1.1, F.2.1, F.5.1 (AES-128)'),
